@@ -451,13 +451,26 @@ func (s *Set) Value(_ context.Context, t *dials.Type) (reflect.Value, error) {
 		}
 	}
 
+	var setErr error
 	s.Flags.Visit(func(f *pflag.Flag) {
+		if setErr != nil {
+			return
+		}
 		fieldName, ok := s.flagFieldName[f.Name]
 		if !ok {
 			return
 		}
 
 		ffield := s.trnslVal.FieldByName(fieldName)
+		switch ffield.Kind() {
+		case reflect.Ptr, reflect.Map, reflect.Slice, reflect.Interface:
+		default:
+			// Not pointerified: Pointerify does not reach the fields of a
+			// struct behind a pointer to a pointer (**T).
+			setErr = fmt.Errorf("flag %q: field %s of type %s cannot be set from a flag: expected a pointer, slice or map type",
+				f.Name, fieldName, ffield.Type())
+			return
+		}
 		if !ffield.IsNil() {
 			// there's a 1:1 mapping between flags and field names so panic if
 			// this happens
@@ -496,6 +509,9 @@ func (s *Set) Value(_ context.Context, t *dials.Type) (reflect.Value, error) {
 			ffield.Set(cfval)
 		}
 	})
+	if setErr != nil {
+		return reflect.Value{}, setErr
+	}
 
 	return s.tfmr.ReverseTranslate(s.trnslVal)
 }
